@@ -30,6 +30,7 @@ func init() {
 		Explanation: "Decides structural necessary conditions of convergence, on every path and for every schedule: (1) in the cache, content, version and the event's update flag change together, and an initial load stores content, version 0 and the loaded state only under the not-loaded test of that same entry (PAIR/version-bump); every event is stamped with the pre-update version, applied by its handler, fanned out inside the unlock window and dropped only by the listed discards (CONF/handle-event); (2) cache content and version are written only by cache tasks under the entry's mutex and read under it (CTX/guarded-by); (3) the subscriber applies an event only when it targets its version and advances by one per update (DOM/version-filter); (4) events are processed only with the event gate known open, discarded before load, and reaccess dispatched first (DOM/event-gate); (5) queues are updated in order-preserving forms (FIFO); (6) all mutable subscription state is touched on the connection worker only (CTX/conn); (7) a resource made sendable again must carry a current snapshot (PAIR/snapshot-current: known finding F13). Not decided: end-to-end equality of the client copy with the service state, Value.Equal, the reset diff (C12), the collector (C02), JSON encodings, legacy-encoding selection.",
 		Assumptions: append([]string{"at most one cache worker runs a resource queue at a time (FIFO/CHAN rules) and one output worker per connection (CTX/conn)"}, baseAssumptions...),
 		Rules: []Rule{
+			{Name: "WHO/event-immutable", Min: 5, Run: ruleEventImmutable, Doc: "a fanned-out event is read-only: no subscriber-side store into the shared ResourceEvent"},
 			{Name: "PAIR/version-bump", Min: 2, Run: ruleVersionBump, Doc: "content, version and update flag change together; initial load guarded"},
 			{Name: "CONF/handle-event", Min: 1, Run: ruleHandleEvent, Doc: "handleEvent conformance: stamp, apply, fan out; listed discards only"},
 			{Name: "WHO/handler-callers", Min: 3, Run: ruleHandlerCallers, Doc: "state-changing handlers reached only through handleEvent; full answers only for the matching kind"},
@@ -40,14 +41,15 @@ func init() {
 			{Name: "CTX/conn", Min: 25, Run: ruleConfinement, Doc: "subscription state confined to the connection worker"},
 			{Name: "PAIR/snapshot-current", Min: 1, Run: ruleSnapshotCurrent, Doc: "re-sendable resource has a current snapshot"},
 			{Name: "DOM/reset-protocol", Min: 1, Run: ruleResetProtocol, Doc: "the reset window closes on every outcome of the re-fetch (state events are dropped while it is open)"},
+			{Name: "DOM/copy-on-write", Min: 1, Run: ruleCopyOnWrite, Doc: "cached model/collection values are never written in place"},
 			{Name: "WHO/state", Min: 5, Run: ruleWho([]whoEntry{
-				{"server.Subscription.version", w("(*server.Subscription).processEvent", "version+1 per update", "(*server.Subscription).setModel", "snapshot", "(*server.Subscription).setCollection", "snapshot")},
-				{"server.Subscription.queueFlag", w("server.NewSubscription", "initial loading gate", "(*server.Subscription).queueEvents", "close", "(*server.Subscription).unqueueEvents", "open")},
-				{"rescache.ResourceSubscription.model", w("(*rescache.ResourceSubscription).handleEventChange", "copy-on-write update", "(*rescache.ResourceSubscription).processGetResponse", "initial load")},
-				{"rescache.ResourceSubscription.collection", w("(*rescache.ResourceSubscription).handleEventAdd", "copy-on-write", "(*rescache.ResourceSubscription).handleEventRemove", "copy-on-write", "(*rescache.ResourceSubscription).processGetResponse", "initial load")},
-				{"rescache.Model.data", w("(*rescache.Model).MarshalJSON", "encoding of the latest protocol, cached once")},
-				{"rescache.Collection.data", w("(*rescache.Collection).MarshalJSON", "encoding of the latest protocol, cached once")},
-				{"rescache.ResourceSubscription.version", w("(*rescache.ResourceSubscription).handleEventAdd", "bump", "(*rescache.ResourceSubscription).handleEventRemove", "bump", "(*rescache.ResourceSubscription).handleEventChange", "bump", "(*rescache.ResourceSubscription).processGetResponse", "initial 0")},
+				{Field: "server.Subscription.version", Writers: w("(*server.Subscription).processEvent", "version+1 per update", "(*server.Subscription).setModel", "snapshot", "(*server.Subscription).setCollection", "snapshot")},
+				{Field: "server.Subscription.queueFlag", Writers: w("server.NewSubscription", "initial loading gate", "(*server.Subscription).queueEvents", "close", "(*server.Subscription).unqueueEvents", "open")},
+				{Field: "rescache.ResourceSubscription.model", Writers: w("(*rescache.ResourceSubscription).handleEventChange", "copy-on-write update", "(*rescache.ResourceSubscription).processGetResponse", "initial load")},
+				{Field: "rescache.ResourceSubscription.collection", Writers: w("(*rescache.ResourceSubscription).handleEventAdd", "copy-on-write", "(*rescache.ResourceSubscription).handleEventRemove", "copy-on-write", "(*rescache.ResourceSubscription).processGetResponse", "initial load")},
+				{Field: "rescache.Model.data", Writers: w("(*rescache.Model).MarshalJSON", "encoding of the latest protocol, cached once")},
+				{Field: "rescache.Collection.data", Writers: w("(*rescache.Collection).MarshalJSON", "encoding of the latest protocol, cached once")},
+				{Field: "rescache.ResourceSubscription.version", Writers: w("(*rescache.ResourceSubscription).handleEventAdd", "bump", "(*rescache.ResourceSubscription).handleEventRemove", "bump", "(*rescache.ResourceSubscription).handleEventChange", "bump", "(*rescache.ResourceSubscription).processGetResponse", "initial 0")},
 			}), Doc: "who may write version / gate / cache content"},
 		},
 	})
@@ -68,9 +70,9 @@ func init() {
 			{Name: "DOM/event-gate", Min: 1, Run: ruleEventGate, Doc: "no event before hand-over"},
 			{Name: "REC/census", Min: 4, Run: ruleRec, Doc: "recursion census with termination guards"},
 			{Name: "WHO/counters", Min: 4, Run: ruleWho([]whoEntry{
-				{"server.Subscription.indirect", w("(*server.wsConn).addCount", "edge created", "(*server.wsConn).removeCount", "edge removed")},
-				{"server.Subscription.indirectsent", w("(*server.Subscription).populateResources", "edge handed out", "(*server.Subscription).populateResourcesLegacy", "edge handed out", "(*server.Subscription).processCollectionEvent", "already-sent child", "(*server.Subscription).processModelEvent", "already-sent children", "(*server.wsConn).removeCount", "sent edge removed", "(*server.Subscription).Unsend", "collector")},
-				{"server.Subscription.refs", w("(*server.Subscription).addReference", "first edge", "(*server.Subscription).subscribeRef", "abort", "(*server.Subscription).unsubscribeRefs", "dispose")},
+				{Field: "server.Subscription.indirect", Writers: w("(*server.wsConn).addCount", "edge created", "(*server.wsConn).removeCount", "edge removed")},
+				{Field: "server.Subscription.indirectsent", Writers: w("(*server.Subscription).populateResources", "edge handed out", "(*server.Subscription).populateResourcesLegacy", "edge handed out", "(*server.Subscription).processCollectionEvent", "already-sent child", "(*server.Subscription).processModelEvent", "already-sent children", "(*server.wsConn).removeCount", "sent edge removed", "(*server.Subscription).Unsend", "collector")},
+				{Field: "server.Subscription.refs", Writers: w("(*server.Subscription).addReference", "first edge", "(*server.Subscription).subscribeRef", "abort", "(*server.Subscription).unsubscribeRefs", "dispose")},
 			}), Doc: "who may write the reference counters"},
 		},
 	})
@@ -80,6 +82,7 @@ func init() {
 		Explanation: "Decides: the five queues are updated only in order-preserving forms, including the re-queue of not-yet-processed events before newer ones (FIFO/queues); a worker is woken only on the empty→non-empty transition of a resource queue and never while locks are set (DOM/inch-send), so one worker at a time runs a queue; handleEvent stamps, applies and fans out inside one unlock window with no go statement (CONF/handle-event); Subscriber.Event only enqueues and the continuation of every handler runs on the connection worker (CTX/conn); an applied update advances cache and subscriber versions by exactly one and a stamped event is applied only at its version, hence at most once (PAIR/version-bump, DOM/version-filter); nothing is processed before the hand-over or while the gate is closed, with the in-loop re-test (DOM/event-gate). Not decided: the capacity countdown of the lock list, delivery by the socket, the 'equivalent derived sequence' exception (C12).",
 		Assumptions: baseAssumptions,
 		Rules: []Rule{
+			{Name: "DOM/drain-reentrancy", Min: 2, Run: ruleDrainReentrancy, Doc: "slot bookkeeping finished before the slot's continuations run (they may re-enter)"},
 			{Name: "FIFO/queues", Min: 7, Run: ruleFIFO(allQueues...), Doc: "queue update forms"},
 			{Name: "DOM/inch-send", Min: 1, Run: ruleInChSend, Doc: "worker woken only on the empty→non-empty transition"},
 			{Name: "CONF/worker-loop", Min: 2, Run: ruleWorkerLoops, Doc: "worker loops run every accepted task"},
@@ -97,6 +100,8 @@ func init() {
 		Explanation: "Decides: every data hand-out (GetRPCResources(false), a loaded subscription handed to the HTTP encoder) lies on a continuation path behind a get grant and not behind a direct-response meta status (DOM/gates); Access.CanGet grants only for no error ∧ get == true and tests the error first (TABLE/access); Cache.Access turns request and decode errors into Access.Error (LIN on its body); a denied request releases its direct subscription (PAIR/direct-count); the verdict is cached only for a result or system.accessDenied, by a live subscription (DOM/verdict-store) and cleared on every trigger before it can be reused (DOM/invalidate). Not decided: whether an access answer that was in flight when a trigger arrived is still valid (a runtime relation).",
 		Assumptions: baseAssumptions,
 		Rules: []Rule{
+			{Name: "PROV/token-cid", Min: 5, Run: ruleTokenCID, Doc: "the access request carries the connection's token as it is when the request is sent"},
+			{Name: "CONF/handle-event", Min: 1, Run: ruleHandleEvent, Doc: "a reaccess event always reaches the subscribers (it invalidates the grant)"},
 			{Name: "DOM/gates", Min: 2, Run: ruleGates, Doc: "data hand-out only after the get grant on the same path"},
 			{Name: "TABLE/access", Min: 1, Run: ruleAccessTables, Doc: "decision lists of CanGet/CanCall"},
 			{Name: "DOM/verdict-store", Min: 1, Run: ruleVerdictStore, Doc: "verdict cached only for result or accessDenied"},
@@ -104,7 +109,7 @@ func init() {
 			{Name: "DOM/token-fanout", Min: 1, Run: ruleTokenFanout, Doc: "every token event on a connection that had a token re-checks every subscription"},
 			{Name: "PAIR/direct-count", Min: 2, Run: rulePairDirect, Doc: "denied request leaves no direct subscription"},
 			{Name: "WHO/access", Min: 1, Run: ruleWho([]whoEntry{
-				{"server.Subscription.access", w("(*server.Subscription).handleReaccess", "clear", "(*server.Subscription).reaccess", "clear", "(*server.Subscription).loadAccess", "answer task")},
+				{Field: "server.Subscription.access", Writers: w("(*server.Subscription).handleReaccess", "clear", "(*server.Subscription).reaccess", "clear", "(*server.Subscription).loadAccess", "answer task")},
 			}), Doc: "who may write the cached verdict"},
 		},
 	})
@@ -114,6 +119,7 @@ func init() {
 		Explanation: "Decides: both sites of Cache.Call lie behind a call grant on the same continuation path, for the very action value that was checked, and not behind a direct-response status (DOM/gates); CanCall grants only through call == \"*\" or an exact list entry, error first, never for an empty list (TABLE/access); at all 8 request sites the token argument is the connection's token read in the requesting task and the requester is that same connection; the payload builders use the requester's CID() and the given token (PROV/token-cid); token/tid are written only by setToken and every token change re-checks every subscription of the connection, unconditionally (DOM/token-fanout); the cached verdict is cleared on every trigger and before loadAccess can short-circuit on it (DOM/invalidate); the token is read on the connection worker only (CTX/conn: known finding F11 — the throttled re-access reads it on a fresh goroutine). Not decided: the CanCall list scanner for all strings; validity of an access answer in flight at trigger time.",
 		Assumptions: baseAssumptions,
 		Rules: []Rule{
+			{Name: "CONF/handle-event", Min: 1, Run: ruleHandleEvent, Doc: "a reaccess event always reaches the subscribers (it invalidates the grant)"},
 			{Name: "DOM/gates", Min: 2, Run: ruleGates, Doc: "call forwarded only after the matching grant, with the checked action"},
 			{Name: "TABLE/access", Min: 1, Run: ruleAccessTables, Doc: "decision list of CanCall"},
 			{Name: "DOM/invalidate", Min: 1, Run: ruleInvalidate, Doc: "verdict invalidated on every trigger"},
@@ -121,8 +127,8 @@ func init() {
 			{Name: "DOM/token-fanout", Min: 1, Run: ruleTokenFanout, Doc: "a token change invalidates the verdict of every subscription of the connection, also indirectly held ones"},
 			{Name: "CTX/conn", Min: 25, Run: ruleConfinement, Doc: "token read on the connection worker only"},
 			{Name: "WHO/token", Min: 1, Run: ruleWho([]whoEntry{
-				{"server.wsConn.token", w("(*server.wsConn).setToken", "token event")},
-				{"server.wsConn.tid", w("(*server.wsConn).setToken", "token event")},
+				{Field: "server.wsConn.token", Writers: w("(*server.wsConn).setToken", "token event")},
+				{Field: "server.wsConn.tid", Writers: w("(*server.wsConn).setToken", "token event")},
 			}), Doc: "who may write token / tid"},
 		},
 	})
@@ -132,6 +138,7 @@ func init() {
 		Explanation: "Decides: every store of a new token on a connection that had one is followed by a reaccess of every subscription, unconditionally per subscription (DOM/token-fanout); reaccess events bypass the not-loaded filters in the cache and in the subscription (CONF/handle-event, DOM/event-gate); the verdict is cleared and the event gate closed before the access request, the continuation validates access and reopens the gate exactly once (DOM/invalidate); denial removes all direct subscriptions and sends the unsubscribe event (DOM/revoke); system reset access patterns reach every subscriber of the base and of every cached query (DOM/reset-protocol). Not decided: timing; pattern matching (C12).",
 		Assumptions: baseAssumptions,
 		Rules: []Rule{
+			{Name: "DOM/drain-reentrancy", Min: 2, Run: ruleDrainReentrancy, Doc: "slot bookkeeping finished before the slot's continuations run (they may re-enter)"},
 			{Name: "DOM/token-fanout", Min: 1, Run: ruleTokenFanout, Doc: "token change re-checks every subscription"},
 			{Name: "DOM/invalidate", Min: 1, Run: ruleInvalidate, Doc: "cached verdict invalidated; gate closed before request, reopened after"},
 			{Name: "DOM/event-gate", Min: 1, Run: ruleEventGate, Doc: "reaccess dispatched before the not-loaded discard; gate"},
@@ -147,6 +154,8 @@ func init() {
 		Explanation: "Decides, for every path and schedule: rpc.HandleRequest performs exactly one Reply per dispatched request, directly or inside a handler continuation, and Reply is called from nowhere else (LIN/reply); every continuation parameter of the handlers and combinators is consumed exactly once on every full path — called, delegated to another linear function, or parked in a pending slot (LIN/continuations); pending callback slots are cleared only after draining, or when the connection itself goes away (LIN/drain: known finding F9 — Dispose drops ready callbacks on a live connection); an answered throttled request always frees its slot, so the access checks queued behind it — and the client requests waiting for them — are not stranded (PAIR/throttle-slot); continuations run on the connection worker (CTX/conn). Not decided: liveness (that a parked continuation is eventually run), the readyCallback.loading countdown arithmetic.",
 		Assumptions: append([]string{"mq.Client.SendRequest completes exactly once (C18)", "a continuation refused by wsConn.Enqueue because the connection is disposing is an accepted drop"}, baseAssumptions...),
 		Rules: []Rule{
+			{Name: "DOM/answer-waiting", Min: 1, Run: ruleAnswerWaiting, Doc: "every outcome of a get response collects the subscribers waiting on it"},
+			{Name: "DOM/drain-reentrancy", Min: 2, Run: ruleDrainReentrancy, Doc: "slot bookkeeping finished before the slot's continuations run (they may re-enter)"},
 			{Name: "LIN/reply", Min: 1, Run: ruleReply, Doc: "HandleRequest: exactly one Reply per dispatched request; Reply called from nowhere else"},
 			{Name: "LIN/continuations", Min: 12, Run: linAll, Doc: "every linear continuation parameter is consumed exactly once on every full path"},
 			{Name: "LIN/drain", Min: 2, Run: ruleDrain, Doc: "pending callback slots cleared only after draining, or when the connection is gone"},
@@ -168,7 +177,7 @@ func init() {
 			{Name: "DOM/revoke", Min: 1, Run: ruleRevoke, Doc: "revocation / delete remove all direct subscriptions"},
 			{Name: "PAIR/gc-countdown", Min: 1, Run: ruleGCCountdown, Doc: "a subscription whose last count is released is collected also when it lies on a reference cycle: nothing is left behind"},
 			{Name: "WHO/direct", Min: 1, Run: ruleWho([]whoEntry{
-				{"server.Subscription.direct", w("(*server.wsConn).addCount", "subscribe", "(*server.wsConn).removeCount", "unsubscribe")},
+				{Field: "server.Subscription.direct", Writers: w("(*server.wsConn).addCount", "subscribe", "(*server.wsConn).removeCount", "unsubscribe")},
 			}), Doc: "who may write the direct count"},
 		},
 	})
@@ -178,13 +187,14 @@ func init() {
 		Explanation: "Decides: getSubscription counts one use on every successful return and none on an error return, errors only when an mq subscription was requested, and with subscribe=true returns only after the entry's mq subscription exists (PAIR/cache-count); callers release the use or hand it to addSubscriber exactly once; a count is released iff a membership was removed and bulk releases equal the set dropped (PAIR/membership); a late or repeated Loaded owns or releases the resource exactly once (PAIR/loaded-handover); eviction re-checks the count under the locks, addCount cancels a pending eviction, removeCount queues the entry exactly at zero, gauges follow the count (DOM/evict); get requests are issued only from addSubscriber / reset (DOM/sub-before-get). Not decided: the eviction delay and timers, gauges reading zero at a particular moment.",
 		Assumptions: baseAssumptions,
 		Rules: []Rule{
+			{Name: "DOM/unregister", Min: 1, Run: ruleUnregister, Doc: "a removed cache entry is cleared from every index (base, queries, links)"},
 			{Name: "PAIR/cache-count", Min: 1, Run: rulePairCacheCount, Doc: "getSubscription / sendRequest / Subscribe use count pairing"},
 			{Name: "PAIR/membership", Min: 1, Run: rulePairMembership, Doc: "count released iff a membership was removed"},
 			{Name: "PAIR/loaded-handover", Min: 1, Run: rulePairLoaded, Doc: "late / repeated Loaded"},
 			{Name: "DOM/evict", Min: 2, Run: ruleEvict, Doc: "eviction protocol, gauges, get only from a subscribed entry"},
 			{Name: "WHO/count", Min: 2, Run: ruleWho([]whoEntry{
-				{"rescache.EventSubscription.count", w("(*rescache.Cache).getSubscription", "new entry", "(*rescache.EventSubscription).addCount", "use", "(*rescache.EventSubscription).removeCount", "release", "(*rescache.EventSubscription).addSubscriber", "error-state branch (unreachable today)")},
-				{"rescache.EventSubscription.mqSub", w("(*rescache.Cache).getSubscription", "established under Cache.mu")},
+				{Field: "rescache.EventSubscription.count", Writers: w("(*rescache.Cache).getSubscription", "new entry", "(*rescache.EventSubscription).addCount", "use", "(*rescache.EventSubscription).removeCount", "release", "(*rescache.EventSubscription).addSubscriber", "error-state branch (unreachable today)"), Shape: []string{"init"}},
+				{Field: "rescache.EventSubscription.mqSub", Writers: w("(*rescache.Cache).getSubscription", "established under Cache.mu"), Shape: []string{"from:mq.Client.Subscribe"}},
 			}), Doc: "who may write the use count"},
 		},
 	})
@@ -194,6 +204,7 @@ func init() {
 		Explanation: "Decides: every request site sends the requesting connection's own id and its current token (PROV/token-cid); no value derived from the connection id, the {cid}-expanded resource name/query or the cache's resource name reaches a client-facing sink — event names, resource-set keys, resource-response rids, hrefs (PROV/cid-taint, backward provenance over the whole program); ExpandCID is called on the service-facing side only and expands every tag; token resets re-authenticate only connections whose own tid is listed; events are fanned out to the subscriber set of the resource being handled (DOM/fanout-set). Not decided: what services put into payloads.",
 		Assumptions: baseAssumptions,
 		Rules: []Rule{
+			{Name: "WHO/event-immutable", Min: 5, Run: ruleEventImmutable, Doc: "a fanned-out event is read-only: no subscriber-side store into the shared ResourceEvent"},
 			{Name: "PROV/token-cid", Min: 5, Run: ruleTokenCID, Doc: "requests carry the connection's own id and current token"},
 			{Name: "PROV/cid-taint", Min: 7, Run: ruleCIDTaint, Doc: "expanded names never reach client-facing sinks; ExpandCID callers; tid filter"},
 			{Name: "DOM/fanout-set", Min: 2, Run: ruleFanoutSet, Doc: "events go to the subscriber set of that resource"},
@@ -207,6 +218,7 @@ func init() {
 		Explanation: "Decides: wsConn.dispose sets the flag and closes the worker channel in one critical section, removes the connection from the cache and from token-reset fan-out, unsubscribes the connection events, disposes every subscription, and leaves the registry (DOM/dispose); Subscription.Dispose releases references and exactly one cache use; Enqueue/Subscribe/Unsubscribe refuse a disposing connection; a late Loaded releases the cache use (PAIR/loaded-handover); late access answers are absorbed (DOM/verdict-store); no call/auth request is issued by a continuation of a disposed connection (CTX/post-dispose); a refused task never strands a throttle slot of other connections (PAIR/throttle-slot); temporary HTTP connections are disposed exactly once on every exit (LIN/temp-conn); sends on the worker channel cannot hit the close (CHAN). Not decided: 'no effect on other connections' as a runtime fact beyond the pairing rules of C09.",
 		Assumptions: baseAssumptions,
 		Rules: []Rule{
+			{Name: "LOCK/order", Min: 2, Run: ruleLockOrder, Doc: "teardown cannot deadlock against the token-reset fan-out: lock order acyclic"},
 			{Name: "DOM/dispose", Min: 3, Run: ruleDispose, Doc: "dispose set; refusal after close; Subscription.Dispose"},
 			{Name: "CTX/post-dispose", Min: 1, Run: rulePostDispose, Doc: "no request from a continuation of a disposed connection"},
 			{Name: "LIN/temp-conn", Min: 1, Run: ruleTempConn, Doc: "temporary HTTP connections disposed exactly once"},
@@ -224,6 +236,7 @@ func init() {
 		Assumptions: baseAssumptions,
 		Rules: []Rule{
 			{Name: "DOM/reset-protocol", Min: 1, Run: ruleResetProtocol, Doc: "re-fetch once per matching entry with its normalised query; flag protocol; visit base and queries"},
+			{Name: "DOM/copy-on-write", Min: 1, Run: ruleCopyOnWrite, Doc: "cached model/collection values are never written in place"},
 			{Name: "CONF/handle-event", Min: 1, Run: ruleHandleEvent, Doc: "derived events go through handleEvent; state events dropped only while resetting"},
 			{Name: "WHO/handler-callers", Min: 3, Run: ruleHandlerCallers, Doc: "derived events (also delete on notFound) go through handleEvent; full answers only for the matching kind"},
 			{Name: "TABLE/reject-set", Min: 1, Run: ruleRejectSet(rejectSpecs()[2:]), Doc: "ParseResourcePattern rejects excluded characters"},
@@ -237,6 +250,8 @@ func init() {
 		Explanation: "Decides: the queue is locked with len(queries) of the map that is iterated unmodified, each iteration releases exactly one lock on every outcome of its request (all early returns are inside the unlock task), nothing returns between locking and the end of the iteration, locks are installed only for a positive count; the request goes to the event's subject with the range key as query; answers are applied through per-iteration values, full model/collection answers only behind the matching kind test (PAIR/query-lock); no deferred closure captures a shared loop variable (DOM/loopvar); an initial load re-initialises an entry only under the not-loaded test of that same entry, so an alias arriving later cannot reset a shared resource (PAIR/version-bump); a repeated Loaded is ignored (LIN/loaded-once); Enqueue wakes no worker while locks are set (DOM/inch-send). Not decided: the capacity countdown arithmetic of the lock list; two aliasing gets in flight beyond the loaded-once guard.",
 		Assumptions: baseAssumptions,
 		Rules: []Rule{
+			{Name: "DOM/unregister", Min: 1, Run: ruleUnregister, Doc: "a removed cache entry is cleared from every index (base, queries, links)"},
+			{Name: "DOM/answer-waiting", Min: 1, Run: ruleAnswerWaiting, Doc: "every outcome of a get response collects the subscribers waiting on it"},
 			{Name: "PAIR/query-lock", Min: 1, Run: ruleQueryLock, Doc: "one lock per cached query released exactly once"},
 			{Name: "DOM/loopvar", Min: 1, Run: ruleLoopVar("rescache", "server", "nats"), Doc: "deferred closures capture no shared loop variable"},
 			{Name: "PAIR/version-bump", Min: 2, Run: ruleVersionBump, Doc: "initial load guarded by the not-loaded test of the same entry"},
@@ -261,6 +276,7 @@ func init() {
 		Explanation: "Decides the panic classes that have a crisp rule: decoders return no data with an error, so log-and-continue callers cannot apply a partial message, and return the decoded object whenever they report success, so callers that dereference it cannot hit nil (DOM/all-or-nothing); decoded indexes reach slice operations only inside [0,len] with the exact bound for element access vs slicing, content is dereferenced only for the right kind (DOM/index-kind-guard); optional decoded pointers are dereferenced under their nil test or a predicate implying it, null elements of decoded pointer slices are rejected (DOM/opt-deref); explicit panics and unchecked type assertions are the listed ones (CENSUS/panic); no send on a channel that may have been closed (CHAN: known finding F5 for Cache.inCh); recursive cycles are the listed ones with checked guards (REC/census); the mutex acquisition graph is acyclic (LOCK/order); one Done per throttle slot, so the 'negative running counter' panic is unreachable (PAIR/throttle-slot). Not decided: index safety of lcs, ResourcePattern.Match, byte scans in UnmarshalJSON, encoder buffers; JSON library behaviour; memory exhaustion.",
 		Assumptions: baseAssumptions,
 		Rules: []Rule{
+			{Name: "DOM/reset-protocol", Min: 1, Run: ruleResetProtocol, Doc: "a failed or malformed re-fetch closes the reset window: later valid messages are processed normally"},
 			{Name: "DOM/all-or-nothing", Min: 5, Run: ruleDecoders, Doc: "decoders return no data with an error"},
 			{Name: "DOM/index-kind-guard", Min: 4, Run: ruleIndexKindGuards, Doc: "decoded indexes bounded; content of the right kind"},
 			{Name: "WHO/handler-callers", Min: 3, Run: ruleHandlerCallers, Doc: "no handler or full answer applied to an unloaded / wrong-kind resource"},
@@ -282,6 +298,7 @@ func init() {
 			{Name: "TWIN/encode-value", Min: 1, Run: ruleEncodeValueTwin, Doc: "value kind dispatch of both encoders"},
 			{Name: "REC/census", Min: 4, Run: ruleRec, Doc: "encoder recursion is a listed cycle"},
 			{Name: "PAIR/rpc-resources", Min: 2, Run: ruleRPCResources, Doc: "the graph is rendered while its snapshot is held: hand-over before release"},
+			{Name: "PAIR/emit", Min: 2, Run: ruleEmit, Doc: "every successful encoder path emits one well-formed JSON value skeleton"},
 		},
 	})
 
@@ -310,7 +327,7 @@ func init() {
 			{Name: "DOM/nats-plumbing", Min: 2, Run: ruleNatsPlumbing, Doc: "control-line guards, one listener, closed handler"},
 			{Name: "DOM/loopvar", Min: 0, Run: ruleLoopVar("nats"), Doc: "deferred closures capture no shared loop variable"},
 			{Name: "WHO/mqreqs", Min: 1, Run: ruleWho([]whoEntry{
-				{"nats.Client.mqReqs", w("(*nats.Client).Connect", "fresh map", "(*nats.Client).close", "fresh map")},
+				{Field: "nats.Client.mqReqs", Writers: w("(*nats.Client).Connect", "fresh map", "(*nats.Client).close", "fresh map")},
 			}), Doc: "pending map replaced only on connect/close"},
 		},
 	})
@@ -324,8 +341,9 @@ func init() {
 			{Name: "DOM/throttle", Min: 1, Run: ruleThrottle, Doc: "Add/Done invariant; positive limit at both creation sites"},
 			{Name: "FIFO/queues", Min: 1, Run: ruleFIFO("rescache.Throttle.queue"), Doc: "waiting closures started in order"},
 			{Name: "WHO/throttle", Min: 1, Run: ruleWho([]whoEntry{
-				{"rescache.Throttle.running", w("(*rescache.Throttle).Add", "slot taken", "(*rescache.Throttle).Done", "slot freed")},
-				{"rescache.Throttle.limit", w("rescache.NewThrottle", "constructor")},
+				{Field: "rescache.Throttle.running", Writers: w("(*rescache.Throttle).Add", "slot taken", "(*rescache.Throttle).Done", "slot freed")},
+				{Field: "rescache.Throttle.limit", Writers: w("rescache.NewThrottle", "constructor")},
+				{Field: "server.Subscription.throttle", Writers: w("server.NewSubscription", "the throttle of the subscription tree it is loaded in", "(*server.Subscription).doneLoading", "dropped when loading failed", "(*server.Subscription).Dispose", "dropped with the subscription")},
 			}), Doc: "who may write running / limit"},
 		},
 	})
@@ -335,15 +353,16 @@ func init() {
 		Explanation: "Decides: Stop runs metrics, sockets, HTTP, messaging in this order on the one path that is not a repeated Stop, sets stopping under the mutex first and reports the cause on the stop channel last; the messaging client is closed with a bounded wait before the cache stops; Cache.Stop closes the worker channel, clears pending evictions and resets started; no connection is created or registered once stopped or stopping; loss of the messaging connection stops the service with the cause (DOM/stop); sends on inCh cannot hit the close (CHAN: known finding F5). Not decided: that sockets are closed within the timeouts, net/http shutdown, 'never serves from a stale cache' as a runtime fact.",
 		Assumptions: baseAssumptions,
 		Rules: []Rule{
+			{Name: "DOM/dispose", Min: 3, Run: ruleDispose, Doc: "a connection reports itself done to Stop only after it released everything it holds in the cache and the messaging client"},
 			{Name: "DOM/stop", Min: 3, Run: ruleStop, Doc: "ordered shutdown, cache clean-up, refusal of new connections, closed-handler plumbing"},
 			{Name: "CHAN/close-send", Min: 3, Run: ruleChan, Doc: "no send on a closed channel at shutdown"},
 			{Name: "WHO/stop", Min: 2, Run: ruleWho([]whoEntry{
-				{"server.Service.stopping", w("(*server.Service).Stop", "shutdown flag")},
-				{"server.Service.stop", w("(*server.Service).Stop", "cleared", "(*server.Service).start", "re-created")},
-				{"rescache.Cache.started", w("(*rescache.Cache).Start", "set", "(*rescache.Cache).Stop", "cleared")},
-				{"rescache.Cache.inCh", w("(*rescache.Cache).Start", "re-created per start")},
-				{"rescache.Cache.eventSubs", w("(*rescache.Cache).Start", "the cache index is re-created per start: nothing cached survives a stop")},
-				{"rescache.Cache.unsubQueue", w("(*rescache.Cache).Start", "re-created per start")},
+				{Field: "server.Service.stopping", Writers: w("(*server.Service).Stop", "shutdown flag")},
+				{Field: "server.Service.stop", Writers: w("(*server.Service).Stop", "cleared", "(*server.Service).start", "re-created")},
+				{Field: "rescache.Cache.started", Writers: w("(*rescache.Cache).Start", "set", "(*rescache.Cache).Stop", "cleared")},
+				{Field: "rescache.Cache.inCh", Writers: w("(*rescache.Cache).Start", "re-created per start")},
+				{Field: "rescache.Cache.eventSubs", Writers: w("(*rescache.Cache).Start", "the cache index is re-created per start: nothing cached survives a stop")},
+				{Field: "rescache.Cache.unsubQueue", Writers: w("(*rescache.Cache).Start", "re-created per start")},
 			}), Doc: "who may write the lifecycle flags"},
 		},
 	})
